@@ -657,7 +657,14 @@ class PandasModelBase(
         """
         assert isinstance(data_map, Dict)
         assert isinstance(op, data_algebra.data_ops_types.OperatorPlatform)
-        return self._eval_value_source(s=op, data_map=data_map)
+        res = self._eval_value_source(s=op, data_map=data_map)
+        declared_columns = [c for c in op.column_names]
+        if ([c for c in res.columns] != declared_columns) and (
+            set(res.columns) == set(declared_columns)
+        ):
+            # present the columns in the declared order (some steps special-case empty inputs)
+            res = res[declared_columns]
+        return res
 
     def _eval_value_source(self, s, *, data_map: dict):
         """
